@@ -14,8 +14,10 @@ pub mod c09;
 pub mod c10;
 pub mod c11;
 pub mod c12;
+pub mod c13;
 pub mod c14;
 pub mod c15;
+pub mod c16;
 pub mod c18;
 pub mod c19;
 pub mod c20;
@@ -37,8 +39,10 @@ pub fn run(args: &Args, r: &mut Report) -> bool {
         "C10" => c10::run(args, r),
         "C11" => c11::run(args, r),
         "C12" => c12::run(args, r),
+        "C13" => c13::run(args, r),
         "C14" => c14::run(args, r),
         "C15" => c15::run(args, r),
+        "C16" => c16::run(args, r),
         "C18" => c18::run(args, r),
         "C19" => c19::run(args, r),
         "C20" => c20::run(args, r),
